@@ -313,6 +313,7 @@ static inline void myth_worker_start_ex_body(int rank)
 }
 
 MYTH_CTX_CALLBACK void myth_startpoint_init_ex_1(void *arg1,void *arg2,void *arg3) {
+  MYTH_VERIF_POINT(MYTH_VP_CTX_CALLBACK, arg1, arg2, MYTH_VP_CTX_CB_STARTPOINT_INIT_EX_1);
   myth_running_env_t env = (myth_running_env_t)arg1;
   myth_thread_t this_th = (myth_thread_t)arg2;
   (void)arg3;
@@ -355,6 +356,7 @@ static inline void myth_startpoint_init_ex_body(int rank)
 
 MYTH_CTX_CALLBACK void myth_startpoint_exit_ex_1(void *arg1,void *arg2,void *arg3)
 {
+  MYTH_VERIF_POINT(MYTH_VP_CTX_CALLBACK, arg1, arg2, MYTH_VP_CTX_CB_STARTPOINT_EXIT_EX_1);
   myth_thread_t th=arg1;
   intptr_t rank=(intptr_t)arg2;
   (void)arg3;
